@@ -610,6 +610,21 @@ def gen_construct(rng, tier):
                            f"chk (from_attributes Q None 2%nat [({CQ[s1]}, {cvals(s1, v1)}); ({CQ[s2]}, {cvals(s2, v2)})]) {o[0]} {o[1]}"),
                           [(), ((0, 1),)], (lambda Q, s1=s1, s2=s2: {"writes": [(s1, rt(s1, s2)), (s2, rt(s1, s2))]}),
                           table=("construct-mixed", s1, s2)))
+        # the same with read-only coefficient buffers (numpy.frombuffer, memmaps, frozen arrays, broadcast views):
+        # the writer must still cast every coefficient to the common dtype
+        for which in ("first", "second", "both"):
+            r1, r2 = a1.copy(), a2.copy()
+            if which in ("first", "both"):
+                r1.setflags(write=False)
+            if which in ("second", "both"):
+                r2.setflags(write=False)
+            cases.append(Case("construct:mixed", f"from_attributes coefficients {s1},{s2} ({which} read-only)",
+                              (lambda r1=r1, r2=r2: numpoly.polynomial_from_attributes([[0], [1]], [r1, r2])),
+                              (lambda a1=a1, a2=a2, s1=s1, s2=s2: ("ok", rt(s1, s2), a1.shape, {(): np_cast(a1, rt(s1, s2)), ((0, 1),): np_cast(a2, rt(s1, s2))})),
+                              (lambda o, s1=s1, s2=s2, v1=v1, v2=v2:
+                               f"chk (from_attributes Q None 2%nat [({CQ[s1]}, {cvals(s1, v1)}); ({CQ[s2]}, {cvals(s2, v2)})]) {o[0]} {o[1]}"),
+                              [(), ((0, 1),)], (lambda Q, s1=s1, s2=s2: {"writes": [(s1, rt(s1, s2)), (s2, rt(s1, s2))]}),
+                              table=("construct-mixed-readonly", s1, s2 + ":" + which)))
     return cases
 
 
